@@ -109,6 +109,16 @@ class ILI(_DatabaseEntity):
         self.status = status
         self._definition = definition
 
+    def __eq__(self, other):
+        if not isinstance(other, ILI):
+            return NotImplemented
+        # existing and proposed ILIs are rows of different tables
+        return (self._id == other._id
+                and (self.id is None) == (other.id is None))
+
+    def __hash__(self):
+        return hash((self._ENTITY_TYPE, self._id, self.id is None))
+
     def __repr__(self) -> str:
         return f'ILI({repr(self.id) if self.id else "*PROPOSED*"})'
 
